@@ -209,6 +209,65 @@ def encodeProg (writerTo : Bool) (ts : List Tok) : List Op :=
 /-- does the call return with its element on the connection? -/
 def flushesAtReturn (entry form : String) : Bool := !((entry == "enc" || entry == "encel") && form == "writerto")
 
+
+/-! ### token writers that flush in the middle of an element -/
+
+/-- what a `TokenWriter` user does with the writer: encode a token, or flush -/
+inductive TwOp
+  | tok (t : Tok)
+  | flush
+  deriving DecidableEq, Repr
+
+/-- `lockWriteCloser.EncodeToken` / `Flush` on top of the stanza encoder.  `Flush` goes straight
+to the underlying encoder (`stanzaEncoder` embeds it and has no `Flush` of its own): the depth
+is not touched -/
+def twRun (cfg : Cfg) (fresh : String) : Int → List TwOp → Int × List Op
+  | d, [] => (d, [])
+  | d, .tok t :: ops =>
+    let r := encTok cfg fresh d t
+    let rest := twRun cfg fresh r.1 ops
+    (rest.1, .write r.2 :: rest.2)
+  | d, .flush :: ops =>
+    let rest := twRun cfg fresh d ops
+    (rest.1, .flush :: rest.2)
+
+def twToks : List TwOp → List Tok
+  | [] => []
+  | .tok t :: ops => t :: twToks ops
+  | .flush :: ops => twToks ops
+
+def writes : List Op → List Tok
+  | [] => []
+  | .write t :: ops => t :: writes ops
+  | .flush :: ops => writes ops
+
+/-- insert a flush before the token positions listed in `pos` (position = index of the next
+token; the length of the list = after the last token) -/
+def withFlushes (pos : List Nat) : Nat → List Tok → List TwOp
+  | i, [] => if pos.contains i then [.flush] else []
+  | i, t :: ts => (if pos.contains i then [.flush] else []) ++ .tok t :: withFlushes pos (i + 1) ts
+
+/-! ### a call that fails half way, and the call after it -/
+
+/-- result of the next transmit call -/
+inductive NextRes
+  | wrote (ts : List Tok)
+  | refused
+  deriving DecidableEq, Repr
+
+/-- The first call handed `ts.take k` to the encoder and then failed (its reader failed, the
+encoder refused a token, or the connection failed).  `aborted` is what the session remembers
+about it: the encoder is inside an element, or (`refusedTok`) the underlying writer refused
+the token after the prefix, after which the depth counter is not trusted.  With `guard = true` (the code after the repair)
+the next transmit call is refused when the previous one was aborted; with `guard = false`
+(before) it encodes its element at whatever depth the encoder was left.  Result: the tokens
+the first call left in the encoder, and what the second call does. -/
+def faultThenNext (guard : Bool) (cfg : Cfg) (fresh : String) (ts : List Tok) (k : Nat) (us : List Tok)
+    (refusedTok : Bool := false) : List Tok × NextRes :=
+  let first := encode cfg fresh 0 (ts.take k)
+  if guard && (first.1 != 0 || refusedTok) then (first.2, .refused)
+  else (first.2, .wrote (encode cfg fresh first.1 us).2)
+
 /-! ### what the peer parses (`encoding/xml` printer + parser, trusted) -/
 
 def isNsDecl (a : Attr) : Bool := a.name.space == "xmlns" || (a.name.space == "" && a.name.loc == "xmlns")
